@@ -698,6 +698,75 @@ def explicit_edges_by_object(ctx):
     ctx.case({"directed": "explicit-edges-by-object"}, True)
 
 
+def constructor_argument_forms(ctx):
+    """Directed. (1) The node collection given as an iterator / generator / tuple: a mistake in it (two unordered
+    producers of one name, an unknown gate target) is rejected exactly as when it is given as a list, a valid one is
+    accepted and has the same nodes and outputs. (2) One node declaring the same output name twice. (3) An explicit
+    edge whose value part is malformed (None, a number, a list holding a non-string) is a configuration error, not a
+    raw TypeError."""
+    from hypergraph import END, FunctionNode, Graph, RouteNode
+    from hypergraph.graph.validation import GraphConfigError
+
+    def mk(name, params, out):
+        fid = f"cf/{name}"
+        fn = rt.make_function(name, fid, [{"n": p} for p in params])
+        rt.KIND[fid] = "fn"
+        return FunctionNode(fn, name=name, output_name=out)
+
+    rt.reset_program()
+    a, b, c = mk("a", ["x"], "r"), mk("b", ["y"], "r"), mk("c", ["r"], "w")
+    ok_nodes = [mk("p", ["x"], "m"), mk("q", ["m"], "n")]
+    gate_fn = rt.make_function("g", "cf/g", [{"n": "x"}])
+    rt.KIND["cf/g"] = "gate"
+    bad_gate = [RouteNode(gate_fn, targets=["p", "nowhere", END], name="g"), ok_nodes[0]]
+    forms = {"list": list, "tuple": tuple, "iterator": iter, "generator": lambda ns: (n for n in ns), "dict-values": lambda ns: {n.name: n for n in ns}.values()}
+    for form, conv in forms.items():
+        for label, nodes, must_accept in (("two-unordered-producers", [a, b, c], False), ("unknown-gate-target", bad_gate, False), ("valid-chain", ok_nodes, True)):
+            ctx.obs["flaws_injected" if not must_accept else "valid_built"] += 1
+            ctx.obs["constructor_form_cases"] += 1
+            case = {"program": "node collection as " + form, "content": label}
+            try:
+                g = Graph(conv(nodes), name="cf")
+                err = None
+            except GraphConfigError as e:
+                err = e
+            except Exception as e:  # noqa: BLE001
+                ctx.violation("C19:raw-exception:" + type(e).__name__, f"Graph(<{form} of nodes>) with {label}: raised {e!r} instead of a configuration error", case)
+                continue
+            if must_accept:
+                if err is not None:
+                    ctx.violation("C19:valid-rejected", f"Graph(<{form}>) of a valid chain was rejected: {str(err)[:160]}", case)
+                elif sorted(g.nodes) != ["p", "q"] or set(g.outputs) != {"m", "n"} or tuple(g.inputs.required) != ("x",):
+                    ctx.violation("C19:valid-built-wrong", f"Graph(<{form}>) of a valid chain has nodes {sorted(g.nodes)}, outputs {g.outputs}, inputs {g.inputs}", case)
+            elif err is None:
+                ctx.violation("C19:accepted:" + label + ":collection-form", f"Graph(<{form} of nodes>) accepted a graph with {label} that Graph(<list>) rejects", case)
+    # (2) one node, one output name twice
+    ctx.obs["flaws_injected"] += 1
+    try:
+        fn2 = rt.make_function("twice", "cf/twice", [{"n": "x"}])
+        rt.KIND["cf/twice"] = "fn"
+        Graph([FunctionNode(fn2, name="twice", output_name=("o", "o"))], name="cf2")
+        ctx.violation("C19:accepted:duplicate-output-name-in-node", "a node declaring output_name=('o', 'o') was accepted by the node and by the graph constructor", {"program": "duplicate output name inside one node"})
+    except (GraphConfigError, ValueError):
+        pass  # (node constructors report their own mistakes as ValueError by contract)
+    except Exception as e:  # noqa: BLE001
+        ctx.violation("C19:raw-exception:" + type(e).__name__, f"duplicate output name inside one node: raised {e!r}", {"program": "duplicate output name inside one node"})
+    # (3) malformed value part of an explicit edge
+    p_, q_ = ok_nodes
+    for bad in (None, 5, ["m", 7], [None], {"m": 1}.keys()):
+        ctx.obs["flaws_injected"] += 1
+        case = {"program": "explicit edge with a malformed value part", "value": repr(bad)}
+        try:
+            Graph([p_, q_], edges=[(p_, q_, bad)], name="cf3")
+            if not (hasattr(bad, "__iter__") and all(isinstance(v, str) for v in bad)):
+                ctx.violation("C19:accepted:malformed-edge-values", f"edges=[(p, q, {bad!r})] was accepted", case)
+        except GraphConfigError:
+            pass
+        except Exception as e:  # noqa: BLE001
+            ctx.violation("C19:raw-exception:" + type(e).__name__, f"edges=[(p, q, {bad!r})]: raised {e!r} instead of a configuration error", case)
+    ctx.case({"directed": "constructor-argument-forms"}, True)
+
+
 def run(ctx):
     n = 28 if ctx.tier == "quick" else 600
     core.WARM_P = 0.0
@@ -715,6 +784,7 @@ def run(ctx):
         check_strict_graphs(ctx, U)
         nested_consumer_types(ctx)
         explicit_edges_by_object(ctx)
+        constructor_argument_forms(ctx)
         for label, spec, ok in independent_gates_cases():
             st, e = try_build(spec)
             ctx.obs["flaws_injected" if not ok else "must_accept_checked"] += 1
